@@ -175,6 +175,8 @@ class Ctx:
         self.per_sub[sub] += 1
         for c in classes:
             self.classes[c] += 1
+        if isinstance(case, dict) and "warm" in case:
+            self.classes[f"warm_up_calls:{len(case['warm'])}"] += 1
         if nontrivial:
             if distinct_by_construction:
                 self.nontrivial_constructed += 1
